@@ -9,5 +9,6 @@ echo "== demo on clean tree"; cargo test --offline --test seed_demo 2>&1 | grep 
 git apply $S/patch.diff || { echo "PATCH DOES NOT APPLY"; exit 8; }
 echo "== demo with patch"; cargo test --offline --test seed_demo 2>&1 | grep -E "^test result|^error|panicked" | head -8
 mv tests/seed_demo.rs /tmp/seed_demo.rs.bak
-echo "== existing suite with patch"; cargo test --workspace --no-fail-fast --offline 2>&1 | grep -E "^test result|FAILED|^error" | head -20
+# private network namespace: tests/ingestion_test.rs binds fixed ports and hangs or fails when another worktree runs it too
+echo "== existing suite with patch"; unshare -n sh -c 'ip link set lo up && timeout 1500 cargo test --workspace --no-fail-fast --offline' 2>&1 | grep -E "^test result|FAILED|^error" | head -20
 git checkout -q -- . ; rm -f tests/seed_demo.rs
